@@ -284,6 +284,42 @@ static void run_va(void) {
     vf_sample("address-neighbour stage: 2 own x 2 source addresses x {one bit of real destination / real source / Ethernet source flipped (48 each), exact duplicate}");
 }
 
+/* ------------------------------------------------------------------ C02 flood-and-drain (mode c02f)
+ * Directed histories beyond the closure's reach: a Discover, n observations with pairwise distinct sources (n at and beyond
+ * the responder's see-list bound 1024), then Queries until the 'more' flag clears (at most 120): every QueryResp must be
+ * well-formed (its length is what its count says), solicited, and the sequence must terminate.  pseudo path: [n] */
+static uint64_t fd_frames;
+static void fd_case(int n) {
+    vf_world_reset(); root_setup(); vf_trace_clear();
+    apply(E_DISC);
+    for (int k = 0; k < n; k++) { vf_trace_clear(); send_obs(k, 1); if (tr_sends()) vf_violation("unsolicited:observation-answered", "observation %d made the responder transmit", k); }
+    int more = 1, rounds = 0; unsigned total = 0;
+    while (more && rounds < 120) {
+        pev q = ev_query(0, ST_M1, ST_M1, (uint16_t)(0x300 + rounds)); vf_trace_clear(); drv_linux(&q, 0); rounds++; fd_frames++;
+        oracle_wellformed(0);
+        if (tr_sends() != 1) { vf_violation("unsolicited:query-frame-count", "Query #%d after %d observations answered with %d frames", rounds, n, tr_sends()); break; }
+        const vf_trec *t = tr_send(0);
+        if (t->len < 34 || tr_bytes(t)[17] != 0x07) { vf_violation("malformed:not-a-queryresp", "Query #%d after %d observations answered with opcode 0x%02x, %u bytes", rounds, n, t->len >= 18 ? tr_bytes(t)[17] : 0, t->len); break; }
+        unsigned field = (unsigned)((tr_bytes(t)[32] << 8) | tr_bytes(t)[33]), cnt = field & 0x3FFF; more = (field & 0x8000) != 0;
+        if (t->len != 34 + 20 * cnt) vf_violation("malformed:queryresp-length-vs-count", "after %d observations, QueryResp #%d announces %u descriptors but is %u bytes long (%u expected)", n, rounds, cnt, t->len, 34 + 20 * cnt);
+        if (more && cnt == 0) { vf_violation("malformed:queryresp-more-without-progress", "after %d observations, QueryResp #%d sets 'more' but carries nothing", n, rounds); break; }
+        total += cnt;
+        if (A.verbose) printf("    QueryResp #%d: %u descriptors, more=%d, %u bytes\n", rounds, cnt, more, t->len);
+    }
+    if (more) vf_violation("malformed:queryresp-more-never-clears", "after %d observations 120 Queries were answered with 'more' set", n);
+    vf_outcome(vf_hash64(&total, sizeof total, (uint64_t)n));
+}
+static void fd_name(int ev, char *b, size_t cap) { snprintf(b, cap, "flood of %d observations, then Queries until 'more' clears", ev); }
+static void fd_apply(int ev) { fd_case(ev); }
+static e1_cfg fdcfg = { .nev = 1 << 16, .ev_name = fd_name, .apply = fd_apply, .root_setup = root_setup };
+static void run_fd(void) {
+    static const int NS[6] = {1, 1023, 1024, 1025, 1030, 1100};
+    static int p[1];
+    for (int i = 0; i < 6; i++) { p[0] = NS[i]; e1_manual_path(&fdcfg, p, 1); fd_case(NS[i]); }
+    R.evaluations = fd_frames; R.transitions = fd_frames; R.states = 6; R.exhaustive = 1;
+    vf_sample("flood-and-drain: Discover, n in {1,1023,1024,1025,1030,1100} distinct observations, Queries until 'more' clears: each QueryResp well-formed, one per Query, terminating");
+}
+
 /* ------------------------------------------------------------------ C19 pump
  * Directed long histories: every word of length <= L over a macro alphabet (Flood(n) = n fresh observations,
  * Query, bridged Query, quick Reset, icon request, duplicate, Emit) is repeated R times from several start
@@ -383,9 +419,9 @@ static void mm_apply(int ev) {
 
 int main(int argc, char **argv) {
     const char *prop = "C07";
-    for (int i = 1; i + 1 < argc; i++) if (!strcmp(argv[i], "--mode")) { if (!strncmp(argv[i + 1], "c19", 3)) prop = "C19"; if (!strcmp(argv[i + 1], "c02o")) prop = "C02"; }
+    for (int i = 1; i + 1 < argc; i++) if (!strcmp(argv[i], "--mode")) { if (!strncmp(argv[i + 1], "c19", 3)) prop = "C19"; if (!strcmp(argv[i + 1], "c02o") || !strcmp(argv[i + 1], "c02f")) prop = "C02"; }
     vf_parse_args(argc, argv, prop);
-    mode = !strncmp(A.mode, "c19", 3) ? 19 : !strcmp(A.mode, "c02o") ? 2 : 7;
+    mode = !strncmp(A.mode, "c19", 3) ? 19 : (!strcmp(A.mode, "c02o") || !strcmp(A.mode, "c02f")) ? 2 : 7;
     int pump = !strcmp(A.mode, "c19pump");
     vf_world_init(A.mtu, A.wifi, (uint8_t)A.fill);
     klimit = mode != 19 ? 300 : KMAX - 8;
@@ -395,13 +431,14 @@ int main(int argc, char **argv) {
                    .deadline_s = A.deadline, .max_depth = mode == 19 ? 1400 : 0, .prune_on_violation = 1, .on_new_state = getenv("VF_DBG") ? dbg_state : NULL };
     if (!strcmp(A.mode, "c19multi")) cfg = (e1_cfg){ .nev = 5 * NIF, .ev_name = mm_name, .apply = mm_apply, .enabled = mm_enabled, .root_setup = mm_root, .model = &MM, .model_size = sizeof MM, .deadline_s = A.deadline, .prune_on_violation = 1 };
     pumpcfg = (e1_cfg){ .nev = 2000, .ev_name = pump_name, .apply = pump_apply, .root_setup = root_setup };
-    int vq = !strcmp(A.mode, "c07v"), va = !strcmp(A.mode, "c07a");
-    if (A.replay) { A.verbose = 1; return e1_replay_file(va ? &vacfg : vq ? &vqcfg : pump ? &pumpcfg : &cfg, A.replay); }
+    int vq = !strcmp(A.mode, "c07v"), va = !strcmp(A.mode, "c07a"), fd = !strcmp(A.mode, "c02f");
+    if (A.replay) { A.verbose = 1; return e1_replay_file(fd ? &fdcfg : va ? &vacfg : vq ? &vqcfg : pump ? &pumpcfg : &cfg, A.replay); }
     double t0 = vf_now_s();
     e1_stats st;
     if (pump) { run_pump(&cfg); R.wall_s = vf_now_s() - t0; vf_write_results(); return 0; }
     if (vq) { run_vq(); R.wall_s = vf_now_s() - t0; vf_write_results(); return 0; }
     if (va) { run_va(); R.wall_s = vf_now_s() - t0; vf_write_results(); return 0; }
+    if (fd) { run_fd(); R.wall_s = vf_now_s() - t0; vf_write_results(); return 0; }
     e1_run(&cfg, &st);
     if (mode == 19) {
         vf_extra("max_retained", "%llu bytes in %llu blocks over all %llu reachable states", (unsigned long long)max_live_bytes, (unsigned long long)max_live_blocks, (unsigned long long)st.states);
